@@ -132,6 +132,13 @@ func (o *Options) populateGlobals(c *cli.Context) error {
 		if err != nil {
 			return err
 		}
+		if now.Location() == time.Local {
+			// time.Parse hands back the process zone when the offset written in --today happens to be
+			// the local one on that day: keep the offset as written, so that counting days back from
+			// today (yesterday, last7, last30) does not depend on the process time zone
+			name, offset := now.Zone()
+			now = now.In(time.FixedZone(name, offset))
+		}
 		o.GlobalConfig.Now = now
 	}
 	return nil
